@@ -43,6 +43,9 @@ pub fn rich_schema() -> Schema {
     let bt = TextOptions::default().set_indexing_options(
         TextFieldIndexing::default().set_tokenizer("default").set_index_option(IndexRecordOption::Basic).set_fieldnorms(true));
     sb.add_text_field("bt", bt);
+    // a sparse scored field: present in about one document out of six, 1..4 tokens of two words (fewer tokens than documents:
+    // the segment's average field length is below 1)
+    sb.add_text_field("note", TEXT);
     // longer texts over 8 words with skewed frequencies: conjunctions / unions of 4..6 terms have many matches (block-WAND paths of C06)
     sb.add_text_field("body", TEXT);
     sb.build()
@@ -76,6 +79,12 @@ pub fn to_doc(schema: &Schema, d: &Value) -> TantivyDocument {
         doc.add_text(f("title"), toks.join(" "));
         doc.add_text(f("nf"), toks.join(" "));
         doc.add_text(f("bt"), toks.join(" "));
+    }
+    if let Some(t) = d.get("note").and_then(|x| x.as_array()) {
+        if !t.is_empty() {
+            let toks: Vec<String> = t.iter().map(|x| x.as_str().unwrap().to_string()).collect();
+            doc.add_text(f("note"), toks.join(" "));
+        }
     }
     if let Some(t) = d.get("body").and_then(|x| x.as_array()) {
         let toks: Vec<String> = t.iter().map(|x| x.as_str().unwrap().to_string()).collect();
@@ -221,7 +230,23 @@ pub fn gen_corpus(rng: &mut StdRng, n: usize, dense_all: bool) -> Vec<Value> {
             }
         }
         m.insert("body".into(), json!(body));
+
         docs.push(d);
+    }
+    // Fields added later draw from their own generators, seeded from the documents generated so far: the main stream (and with
+    // it every corpus-dependent regression case, the segment cuts and the queries of a seed) stays what it was.
+    let base = docs.iter().take(64).fold(0xcbf29ce484222325u64, |h, d| {
+        d.to_string().bytes().fold(h, |h, b| (h ^ b as u64).wrapping_mul(0x100000001b3))
+    });
+    for (id, d) in docs.iter_mut().enumerate() {
+        let mut r = StdRng::seed_from_u64(base ^ 0x6e6f7465 ^ ((id as u64) << 24));
+        // note: present in about one document out of six, 1..4 tokens of two words
+        let note: Vec<String> = if r.random_bool(0.17) {
+            (0..r.random_range(1..5)).map(|_| if r.random_bool(0.65) { "n0".to_string() } else { "n1".to_string() }).collect()
+        } else {
+            vec![]
+        };
+        d.as_object_mut().unwrap().insert("note".into(), json!(note));
     }
     docs
 }
